@@ -156,7 +156,8 @@ def combo_cases(tier):
 
 
 def excclass_cases(tier):
-    """E1: small shapes x {untagged, one @wip placement} x one exception-class variant (P.CLASS_VARIANTS) at one step
+    """E1: small shapes x {untagged, one @wip placement} x one exception-class variant (P.CLASS_VARIANTS) or one outcome reached through
+    Context.execute_steps() (P.EXEC_VARIANTS) at one step
     x {default, --wip, continue_after_failed_step, --stop}"""
     quick = tier == "quick"
     for shp in P.shapes(tier):
@@ -164,7 +165,7 @@ def excclass_cases(tier):
             continue
         variants = [(shp, None)] + [(tv, "wip") for tv in tag_variants(shp, tags=("wip",))]
         for tv, tag in variants:
-            for ndev, pr in P.deviations((tv,), 1, outcomes=P.CLASS_VARIANTS):
+            for ndev, pr in P.deviations((tv,), 1, outcomes=P.CLASS_VARIANTS + P.EXEC_VARIANTS):
                 if not ndev:
                     continue
                 for cfg in (("default", "wip", "cafs", "wip_cafs") if tag else ("default", "stop", "cafs")):
